@@ -145,6 +145,7 @@ def check(ctx):
     adjoint_only_difficulty_probe(ctx)
     frozen_first_probe(ctx)
     failed_recorded_backward_then_reuse_probe(ctx)
+    round6_probes(ctx)
 
 
 # ---------------------------------------------------------------- oracle
@@ -198,6 +199,64 @@ def failed_recorded_backward_then_reuse_probe(ctx):
         if not held or names != ["a"] or err is None or not err <= tol:
             ctx.fail("oracle", "ivpgrad:failed-recorded-backward-then-reuse", dict(info, backward_raised=raised),
                      {"module_holds_callers_parameter": held, "named_parameters": names, "gradient_error": err}, "the caller's Parameter, error <= %g" % tol)
+
+
+def round6_probes(ctx):
+    """(a) tied weights (one Parameter under two names, used through both) with a RECORDED backward: first-order gradients obtained with
+    create_graph=True are the sensitivities, and so are the second-order ones (finding F36 fixed in 207265b; round-6 seed C08/15 undid
+    it).  (b) a float32 integration earlier in the process does not change a later float64 one: same values and gradients, bitwise
+    (C08/16: the converted Butcher tableau was cached on the solver CLASS and reached the float64 run rounded through float32)"""
+    from xitorch.integrate import solve_ivp
+
+    class Tied(torch.nn.Module):
+        def __init__(self, a):
+            super().__init__()
+            self.a1 = a
+            self.a2 = a
+
+        def forward(self, t, y):
+            return -self.a1 * y - 0.5 * self.a2 * y
+    ts = torch.linspace(0.0, 1.0, 11, dtype=DT)
+    a = torch.nn.Parameter(torch.tensor([0.7, 1.3], dtype=DT))
+    m = Tied(a)
+    y0 = torch.tensor([1.0, 2.0], dtype=DT, requires_grad=True)
+    for meth in ("rk4", "rk45"):
+        ctx.count(("tied-weights-recorded-backward", meth), nontrivial=True)
+        try:
+            with warnings.catch_warnings():
+                warnings.simplefilter("ignore")
+                yt = solve_ivp(m.forward, ts, y0, method=meth, **({"rtol": 1e-10, "atol": 1e-12} if meth == "rk45" else {}))
+                g1, = torch.autograd.grad(yt[-1].sum(), a, create_graph=True)
+                g2, = torch.autograd.grad(g1.sum(), a)
+        except Exception as e:
+            ctx.fail("oracle", "ivpgrad:tied-weights:exception", {"method": meth}, repr(e)[:300], "gradients")
+            continue
+        # y(1) = y0 exp(-1.5 a): dy/da = -1.5 y0 exp(-1.5 a), d2y/da2 = 2.25 y0 exp(-1.5 a)
+        ex = y0.detach() * torch.exp(-1.5 * a.detach())
+        e1, e2 = float((g1.detach() + 1.5 * ex).abs().max()), float((g2 - 2.25 * ex).abs().max())
+        if not (e1 <= 1e-5 and e2 <= 1e-4):
+            ctx.fail("oracle", "ivpgrad:tied-weights-recorded-backward", {"method": meth, "rhs": "-(a1 + 0.5 a2) y with a1 is a2"},
+                     {"first_order_error": e1, "second_order_error": e2}, "<= 1e-5 / 1e-4")
+    for meth in ("rk45", "rk23"):
+        def run64():
+            c = torch.tensor([0.8, 1.1], dtype=DT, requires_grad=True)
+            z0 = torch.tensor([1.0, -1.0], dtype=DT, requires_grad=True)
+            yt = solve_ivp(lambda t, y, c: -c * y + torch.sin(t), ts, z0, params=(c,), method=meth, rtol=1e-10, atol=1e-12)
+            gc, gz = torch.autograd.grad(yt[-1].sum(), (c, z0))
+            return yt.detach(), gc, gz
+        ctx.count(("dtype-history", meth), nontrivial=True)
+        try:
+            with warnings.catch_warnings():
+                warnings.simplefilter("ignore")
+                before = run64()
+                solve_ivp(lambda t, y: -y, ts.to(torch.float32), torch.ones(2, dtype=torch.float32), method=meth)
+                after = run64()
+        except Exception as e:
+            ctx.fail("oracle", "ivpgrad:dtype-history:exception", {"method": meth}, repr(e)[:300], "values")
+            continue
+        if not all(torch.equal(u, w) for u, w in zip(before, after)):
+            ctx.fail("oracle", "ivpgrad:float32-call-changes-later-float64-call", {"method": meth},
+                     {"max_difference": max(float((u - w).abs().max()) for u, w in zip(before, after))}, "bitwise equal")
 
 
 def families():
